@@ -573,6 +573,21 @@ func checkErrorViz(c *Case, tr *Trace, m *Model, vg *vizGraph, e int, ii *Invoke
 			}
 		}
 	}
+	// a group node that is kept links only to members that are drawn (results
+	// of the failed constructors kept in the graph)
+	drawn := map[string]bool{}
+	for _, cl := range vg.Clusters {
+		for _, id := range cl.Results {
+			drawn[id] = true
+		}
+	}
+	for grp, members := range vg.GroupEdges {
+		for _, id := range members {
+			if !drawn[id] {
+				return &Failure{"viz-error", fmt.Sprintf("group %s is linked to %q, which is not a result of any constructor kept in the error graph", grp, id)}, false
+			}
+		}
+	}
 	switch kind {
 	case "ctor":
 		if !set[g] {
